@@ -24,8 +24,15 @@ def log(*a):
 # ---------------------------------------------------------------- numbers
 
 
+class NonFinite(str):
+    """a non-finite double coming back from the implementation (never equal to any model value)"""
+
+
 def fr_hex(h):
-    return Fraction(float.fromhex(h))
+    f = float.fromhex(h)
+    if f != f or f in (float("inf"), float("-inf")):
+        return NonFinite(h)
+    return Fraction(f)
 
 
 def hexf(x):
@@ -88,6 +95,8 @@ def dec_res(x):
 
 
 def coq_q(fr):
+    if isinstance(fr, NonFinite):
+        raise ValueError("non-finite value from the implementation")
     fr = Fraction(fr)
     return "(%d#%d)" % (fr.numerator, fr.denominator)
 
